@@ -114,8 +114,7 @@ Init == /\ s = [ evs   |-> <<>>,                       \* [k, sz] of event i (en
                  tickDue |-> FALSE,                    \* a stale tick is waiting to be processed
                  stale |-> 0,                          \* stale passes so far
                  jobs  |-> {},                         \* running sendBatch calls
-                 c     |-> [r20x |-> 0, respErr |-> 0, sendErr |-> 0, retries |-> 0, sent |-> 0,
-                            msgs |-> 0, decErr |-> 0, ups |-> 0, downs |-> 0],
+                 c     |-> [r20x |-> 0, respErr |-> 0, sendErr |-> 0, retries |-> 0, ups |-> 0, downs |-> 0],
                  errLog |-> {},                        \* events named in an error log line
                  reqs  |-> {},                         \* history: every request put on the wire
                  stop  |-> "no",
@@ -180,11 +179,10 @@ NextSub(t, j) == IF j.rest = <<>> THEN [t EXCEPT !.jobs = @ \ {j}]
                  ELSE Replace(t, j, [j EXCEPT !.sub = <<>>, !.try = 0, !.pc = "pack", !.why = ""])
 
 \* outcomes of one sub-batch: okS succeed, errS are per-event errors, failS fail with the batch
-Effect(t, j, okS, errS, failS, sendErr, decErr, counted) ==
+Effect(t, j, okS, errS, failS, sendErr) ==
   LET n == Len(j.sub)
-      c1 == Bump(Bump(Bump(Bump(t.c, "r20x", Cardinality(okS)), "respErr", Cardinality(errS)),
-                      "sendErr", sendErr), "decErr", decErr)
-      c2 == Bump(Bump(Bump(c1, "sent", counted), "msgs", counted * n), "downs", n)
+      c1 == Bump(Bump(Bump(t.c, "r20x", Cardinality(okS)), "respErr", Cardinality(errS)), "sendErr", sendErr)
+      c2 == Bump(c1, "downs", n)
   IN NextSub([t EXCEPT !.c = c2,
                        !.out = SetOut(SetOut(SetOut(@, okS, "ok"), errS, "err"), failS, "fail"),
                        !.errLog = @ \cup errS \cup (IF failS = {} THEN {} ELSE {j.sub[1]})], j)
@@ -193,26 +191,26 @@ Reattempt(t, j, why) ==
   LET j2 == [j EXCEPT !.try = 2, !.pc = "sent", !.why = ""]
   IN [Replace(t, j, j2) EXCEPT !.c = Bump(@, "retries", 1), !.reqs = @ \cup {Req(j2, why)}]
 
-HttpError(t, j, closedBody) == Effect(t, j, {}, Range(j.sub), {}, 1, IF closedBody THEN 1 ELSE 0, 1)
+HttpError(t, j) == Effect(t, j, {}, Range(j.sub), {}, 1)
 
 \* what the code does with answer b
 RespondCode(t, j, b) ==
   LET all == Range(j.sub)
       n   == Len(j.sub)
   IN CASE b \in TimeoutB  -> IF j.try = 1 THEN Reattempt(t, j, b)
-                             ELSE Effect(t, j, {}, {}, all, 1, 0, 0)      \* handleBatchFailure
+                             ELSE Effect(t, j, {}, {}, all, 1)      \* handleBatchFailure
        [] b \in ThrottleB -> IF CodeRetries(b)
                                THEN Replace(t, j, [j EXCEPT !.pc = "sleep", !.wake = t.now + Delay(b), !.why = b])
-                               ELSE HttpError(t, j, FALSE)
-       [] b \in HttpErrB  -> HttpError(t, j, FALSE)
-       [] b \in OkB       -> Effect(t, j, all, {}, {}, 0, 0, 1)
-       [] b \in EvErrB    -> Effect(t, j, all \ {j.sub[1]}, {j.sub[1]}, {}, 0, 0, 1)
-       [] b \in ShortB    -> Effect(t, j, all \ {j.sub[n]}, {j.sub[n]}, {}, 0, 0, 1)
-       [] b \in UndecB    -> Effect(t, j, {}, all, {}, 0, 1, 1)
+                               ELSE HttpError(t, j)
+       [] b \in HttpErrB  -> HttpError(t, j)
+       [] b \in OkB       -> Effect(t, j, all, {}, {}, 0)
+       [] b \in EvErrB    -> Effect(t, j, all \ {j.sub[1]}, {j.sub[1]}, {}, 0)
+       [] b \in ShortB    -> Effect(t, j, all \ {j.sub[n]}, {j.sub[n]}, {}, 0)
+       [] b \in UndecB    -> Effect(t, j, {}, all, {}, 0)
 
 \* return from Clock.Sleep: first attempt -> retry; second attempt -> the loop is over, the
 \* (already closed) throttle response is processed as an HTTP error
-WakeCode(t, j) == IF j.try = 1 THEN Reattempt(t, j, j.why) ELSE HttpError(t, j, TRUE)
+WakeCode(t, j) == IF j.try = 1 THEN Reattempt(t, j, j.why) ELSE HttpError(t, j)
 
 \* ---- conventions the statement leaves open (Loose) -----------------------
 \* after a licensed answer the batch may or may not be retried, with or without
@@ -221,11 +219,11 @@ RespondSet(t, j, b) ==
   IF ~Loose THEN {RespondCode(t, j, b)}
   ELSE {RespondCode(t, j, b)}
        \cup (IF b \in ThrottleB /\ j.try = 1 /\ Licensed(b)
-               THEN {HttpError(t, j, FALSE), HttpError(t, j, TRUE), Reattempt(t, j, b),
+               THEN {HttpError(t, j), Reattempt(t, j, b),
                      Replace(t, j, [j EXCEPT !.pc = "sleep", !.wake = t.now + 1, !.why = b])}
                ELSE {})
-       \cup (IF b \in ThrottleB /\ j.try = 2 THEN {HttpError(t, j, FALSE), HttpError(t, j, TRUE)} ELSE {})
-       \cup (IF b \in TimeoutB /\ j.try = 1 THEN {Effect(t, j, {}, {}, Range(j.sub), 1, 0, 0)} ELSE {})
+       \cup (IF b \in ThrottleB /\ j.try = 2 THEN {HttpError(t, j)} ELSE {})
+       \cup (IF b \in TimeoutB /\ j.try = 1 THEN {Effect(t, j, {}, {}, Range(j.sub), 1)} ELSE {})
 
 \* ---- run to quiescence ---------------------------------------------------
 Packing(t)  == {j \in t.jobs : j.pc = "pack"}
@@ -265,8 +263,9 @@ FineNext ==
   \/ \E k \in Dests, z \in Sizes :
        /\ s.stop = "no" /\ Len(s.evs) < MaxEvents
        /\ s' = EnqueueF(s, k, z) /\ act' = [name |-> "Enqueue"]
-  \* assumption: the stale goroutine handles a tick before the clock moves on
-  \/ /\ TickOK(s) /\ ~s.tickDue
+  \* assumption: the stale goroutine handles a tick, and a goroutine whose sleep is over
+  \* resumes, before the clock moves on
+  \/ /\ TickOK(s) /\ ~s.tickDue /\ Waking(s) = {}
      /\ s' = AdvanceF(s) /\ act' = [name |-> "Advance"]
   \/ /\ s.tickDue
      /\ s' = StalePassF(s) /\ act' = [name |-> "StalePass"]
@@ -356,7 +355,7 @@ Abs == [ now      |-> s.now,
                          : j \in Sent(s)},
          sleepers |-> Cardinality({j \in s.jobs : j.pc = "sleep"}),
          c        |-> [r20x |-> s.c.r20x, respErr |-> s.c.respErr, sendErr |-> s.c.sendErr, retries |-> s.c.retries,
-                       sent |-> s.c.sent, msgs |-> s.c.msgs, decErr |-> s.c.decErr, gauge |-> s.c.ups - s.c.downs],
+                       gauge |-> s.c.ups - s.c.downs],
          errSet   |-> s.errLog,
          stopped  |-> s.stop = "stopped" ]
 \* hidden part of the state (identity of a graph node); sets are rendered through functions so
